@@ -56,7 +56,8 @@ f('C17', 'compute-normalises-weights-only', 'Orientation.compute normalises only
 f('C17', 'rational-vertex-key-ignores-weight', 'vertices of rational patches are keyed by pre-multiplied coordinates without the weight: distinct points share a vertex node', False, {'call': 'SplineModel(1,2).add([Curve(L,[[0,0,1],[2,0,1]],True), Curve(L,[[2,0,2],[3,3,1]],True)])'})
 
 f('C14', 'manipulate-getargspec', 'curve_factory.manipulate raises AttributeError: inspect.getargspec was removed in Python 3.11', False, {'call': 'cf.manipulate(cf.line([0,0],[1,1]), lambda x: 2*x)'})
-f('C14', 'manipulate-derivative-averaging', 'curve_factory.manipulate: scalar path averages acceleration with d=1, and the start point derivative is halved (continuity(start) = -1 triggers averaging with a zero row)', False, {'call': 'cf.manipulate(Curve(BSplineBasis(3),[[0,0],[1,0],[1,1]]), lambda x,v: x+v)(0)'})
+f('C14', 'manipulate-acceleration-averaged-with-d1', 'curve_factory.manipulate: the scalar path averaged the acceleration with the FIRST derivative (d=1 instead of d=2)', False, {'call': 'cf.manipulate(curve with a C0 knot, lambda x,v,a: x+a)(knot)'})
+f('C14', 'manipulate-derivative-averaging', 'curve_factory.manipulate: the start point derivative is halved (continuity(start) = -1 triggers averaging with a zero row)', False, {'call': 'cf.manipulate(Curve(BSplineBasis(3),[[0,0],[1,0],[1,1]]), lambda x,v: x+v)(0)'})
 f('C14', 'lsq-flat-layout-reshape', 'surface/volume least_square_fit with the flat-matrix layout reshapes with the number of basis functions instead of evaluation points: ValueError when over-determined', False, {'call': 'sf.least_square_fit(x.reshape(-1,2),[b1,b2],u)'})
 f('C14', 'volume-loft-two-sections', 'volume_factory.loft with two surfaces calls surface_factory.edge_curves on surfaces: ValueError', False, {'call': 'vf.loft(Surface(), Surface()+[0,0,1])'})
 
@@ -121,7 +122,7 @@ f('C10', 'constructor-accepts-tolerance-inversion-evaluate-segfault', 'BSplineBa
 
 f('C13', 'signed-zero-normal-half-turn', 'rotate_local_x_axis took atan2(normal[1], normal[0]) = pi for a normal (-0., 0., 1.) (what np.cross gives for 2-D three-point input) while flip_and_move skipped the forward rotation: placed arcs/circles/ellipses/spheres/cylinders started half a turn off (found by the thorough tier)', True, {'call': 'circle_segment_from_three_points([-1,3.5],[1,4],[-2,3.75])'})
 
-FIXED_COMMITS = {('C13', 'signed-zero-normal-half-turn'): '3b9bc69', ('C10', 'constructor-accepts-tolerance-inversion-evaluate-segfault'): 'dd9406d', ('C10', 'constructor-indexerror-short-periodic'): '2fd5054', ('C12', 'periodic-rounded-ghost-knots-out-of-range'): '6ceb42c', ('C14', 'loft-periodic-rounded-knots-out-of-range'): '6ceb42c', ('C13', 'three-point-arc-small-radius-absolute-tolerance'): '0a30caf', ('C04', 'periodic-insert-end-indexerror'): '482ca58', ('C04', 'periodic-small-basis-geometry'): 'b253cc6', ('C07', 'split-periodic-small-basis'): 'b253cc6', ('C07', 'split-periodic-point-at-end'): '482ca58', ('C07', 'subdivide-periodic-direction'): '482ca58', ('C08', 'periodic-insert-small-basis'): 'b253cc6', ('C10', 'periodic-small-basis-structure'): 'b253cc6', ('C12', 'periodic-small-basis-geometry'): 'b253cc6', ('C12', 'periodic-insert-small-basis'): 'b253cc6', ('C15', 'const-par-curve-periodic-few-functions'): 'b253cc6', ('C15', 'const-par-curve-periodic-end'): '2c81ce6', ('C19', 'periodic-seam-split'): '482ca58+b253cc6', ('C02', 'curve-evaluate-rejects-tensor-keyword'): '3ae9973', ('C03', 'rational-surface-d-not-tuple-returns-zeros'): 'cd5762c', ('C03', 'rational-derivative-order-zero-returns-zero'): '9f6e350', ('C03', 'rational-closed-form-ignores-above-list'): 'ea90458+cd5762c', ('C03', 'rational-left-limit-at-discontinuity'): '9f6e350+ea90458', ('C05', 'curve-raise-order-zero-returns-none'): '6ca09d8', ('C05', 'curve-dimension1-controlpoints-flattened'): '2d51429', ('C06', 'reverse-periodic-flip-only'): '4fe14f6', ('C06', 'swap-curve-returns-none'): '4f754a8', ('C09', 'infix-truediv-undefined'): '6773409', ('C11', 'extrude-mutates-operand'): 'c412e04', ('C11', 'section-point-view'): 'bb6c762', ('C11', 'swap-curve-returns-none'): '4f754a8', ('C11', 'curve-raise-order-0-returns-none'): '6ca09d8', ('C11', 'coons-patch-reverses-operands'): '9b346de', ('C13', 'three-point-arc-wrong-end'): 'b23deeb', ('C13', 'three-point-arc-nan-half-turn'): 'b0aae77', ('C13', 'arc-2pi-ignores-xaxis'): 'cf8223f', ('C13', 'cylinder-height-scaled-by-axis-norm'): '1445103', ('C14', 'manipulate-getargspec'): 'e2f7e0b', ('C14', 'lsq-flat-layout-reshape'): '3534aae', ('C14', 'volume-loft-two-sections'): 'f8de1df', ('C16', 'torsion-scalar-branch-uses-acceleration'): '274e74a', ('C16', 'rational-curve-one-element-list-derivative-squeezed'): 'ea90458', ('C16', 'integrate-periodic-collapse-single-fold'): 'fc5b45b', ('C17', 'nodeview-section-wrong-frame'): '8e83d07', ('C19', 'stl-2d-surface-resize'): '932700c', ('C19', 'g2-reversed-periodic-primitive'): '4fe14f6', ('C20', 'state-not-restored-on-exception'): 'cc29465', ('C20', 'g2-bounded-surface-writes-state'): '18d24da', ('C20', 'splinemodel-vertex-tolerance-not-from-state'): '580c3fa', ('C11', 'nutils-patch-mutates-operands'): 'a44d46f', ('C13', 'three-point-arc-half-turn-accuracy'): '3370f0f', ('C18', 'openfoam-boundary-count-without-internal-faces'): '7181bd9'}
+FIXED_COMMITS = {('C14', 'manipulate-acceleration-averaged-with-d1'): 'f7dae26', ('C13', 'signed-zero-normal-half-turn'): '3b9bc69', ('C10', 'constructor-accepts-tolerance-inversion-evaluate-segfault'): 'dd9406d', ('C10', 'constructor-indexerror-short-periodic'): '2fd5054', ('C12', 'periodic-rounded-ghost-knots-out-of-range'): '6ceb42c', ('C14', 'loft-periodic-rounded-knots-out-of-range'): '6ceb42c', ('C13', 'three-point-arc-small-radius-absolute-tolerance'): '0a30caf', ('C04', 'periodic-insert-end-indexerror'): '482ca58', ('C04', 'periodic-small-basis-geometry'): 'b253cc6', ('C07', 'split-periodic-small-basis'): 'b253cc6', ('C07', 'split-periodic-point-at-end'): '482ca58', ('C07', 'subdivide-periodic-direction'): '482ca58', ('C08', 'periodic-insert-small-basis'): 'b253cc6', ('C10', 'periodic-small-basis-structure'): 'b253cc6', ('C12', 'periodic-small-basis-geometry'): 'b253cc6', ('C12', 'periodic-insert-small-basis'): 'b253cc6', ('C15', 'const-par-curve-periodic-few-functions'): 'b253cc6', ('C15', 'const-par-curve-periodic-end'): '2c81ce6', ('C19', 'periodic-seam-split'): '482ca58+b253cc6', ('C02', 'curve-evaluate-rejects-tensor-keyword'): '3ae9973', ('C03', 'rational-surface-d-not-tuple-returns-zeros'): 'cd5762c', ('C03', 'rational-derivative-order-zero-returns-zero'): '9f6e350', ('C03', 'rational-closed-form-ignores-above-list'): 'ea90458+cd5762c', ('C03', 'rational-left-limit-at-discontinuity'): '9f6e350+ea90458', ('C05', 'curve-raise-order-zero-returns-none'): '6ca09d8', ('C05', 'curve-dimension1-controlpoints-flattened'): '2d51429', ('C06', 'reverse-periodic-flip-only'): '4fe14f6', ('C06', 'swap-curve-returns-none'): '4f754a8', ('C09', 'infix-truediv-undefined'): '6773409', ('C11', 'extrude-mutates-operand'): 'c412e04', ('C11', 'section-point-view'): 'bb6c762', ('C11', 'swap-curve-returns-none'): '4f754a8', ('C11', 'curve-raise-order-0-returns-none'): '6ca09d8', ('C11', 'coons-patch-reverses-operands'): '9b346de', ('C13', 'three-point-arc-wrong-end'): 'b23deeb', ('C13', 'three-point-arc-nan-half-turn'): 'b0aae77', ('C13', 'arc-2pi-ignores-xaxis'): 'cf8223f', ('C13', 'cylinder-height-scaled-by-axis-norm'): '1445103', ('C14', 'manipulate-getargspec'): 'e2f7e0b', ('C14', 'lsq-flat-layout-reshape'): '3534aae', ('C14', 'volume-loft-two-sections'): 'f8de1df', ('C16', 'torsion-scalar-branch-uses-acceleration'): '274e74a', ('C16', 'rational-curve-one-element-list-derivative-squeezed'): 'ea90458', ('C16', 'integrate-periodic-collapse-single-fold'): 'fc5b45b', ('C17', 'nodeview-section-wrong-frame'): '8e83d07', ('C19', 'stl-2d-surface-resize'): '932700c', ('C19', 'g2-reversed-periodic-primitive'): '4fe14f6', ('C20', 'state-not-restored-on-exception'): 'cc29465', ('C20', 'g2-bounded-surface-writes-state'): '18d24da', ('C20', 'splinemodel-vertex-tolerance-not-from-state'): '580c3fa', ('C11', 'nutils-patch-mutates-operands'): 'a44d46f', ('C13', 'three-point-arc-half-turn-accuracy'): '3370f0f', ('C18', 'openfoam-boundary-count-without-internal-faces'): '7181bd9'}
 FIXED = []
 if __name__ == '__main__':
     p = os.path.join(os.path.dirname(os.path.dirname(os.path.abspath(__file__))), 'known_findings.json')
@@ -152,7 +153,7 @@ if __name__ == '__main__':
             prop = parts[1].split('=')[1]; commit = parts[2]; what, cls = parts[3].rsplit(' [', 1)
             rows.append('| %s | `%s` | %s | %s |' % (prop, cls.rstrip(']'), what.replace('|', '/'), commit))
         rows += ['', 'Commit subjects: ' + '; '.join('`%s` %s' % (h, t[5:].strip()[:90]) for h, t in subj.items()), '',
-                 '**Still listed as known findings** (%d classes; each is reported as a `KNOWN-FINDING:` line when a run hits it; a failure outside these classes is a VIOLATION):' % len(F), '',
+                 '**Still listed as known findings** (%d (property, class) rows - a class that affects two properties is listed under both; each is reported as a `KNOWN-FINDING:` line when a run hits it; a failure outside these classes is a VIOLATION):' % len(F), '',
                  '| property | class | what fails | reproducer |', '|--|--|--|--|']
         for e in sorted(F, key=lambda e: (e['property'], e['class'])):
             rp = e.get('replay') or {}
